@@ -1,6 +1,6 @@
 """C09 — tokens are always given back and waiting jobs eventually run (one scheduler, in-process token)."""
 from .. import common
-from . import _sched, c09files
+from . import _sched, c08files, c09files
 
 PROP = "C09"
 MODULES = ["XpmVerif.Properties.C09"] + c09files.MODULES
@@ -9,7 +9,7 @@ RULE = ('random workloads with up to 3 tokens, failures and aborted starts x ran
 
 
 def prove(ctx):
-    _sched.prove(ctx, MODULES)
+    _sched.prove(ctx, MODULES, extra_msgs=[c08files.translate(ctx)])
 
 
 def _orphan_token_scenario(ctx):
